@@ -2,6 +2,7 @@
 EXTENDS Config_MC
 VARIABLE hist
 H(r) == hist' = Append(hist, r)
+Recs(chs) == [i \in 1..Len(chs) |-> [o |-> chs[i][1], v |-> chs[i][2]]]
 GInit == Init /\ hist = <<>>
 GNext ==
   \/ \E store \in Stores : Attach(store) /\ H([a |-> "Attach", store |-> store])
@@ -11,7 +12,7 @@ GNext ==
   \/ SaveSend /\ cnt.saves < MaxSaves /\ H([a |-> "SaveSend"])
   \/ SaveAck /\ H([a |-> "SaveAck"])
   \/ SaveReject /\ H([a |-> "SaveReject"])
-  \/ \E o \in Options, vals \in SStores \cup LStores :
-        ConfChanged(o, vals) /\ cnt.evs < MaxEvents /\ H([a |-> "ConfChanged", o |-> o, v |-> vals])
+  \/ \E chs \in Changes : OtherChange(chs) /\ cnt.evs < MaxEvents /\ H([a |-> "OtherChange", chs |-> Recs(chs)])
+  \/ Deliver /\ H([a |-> "Deliver", chs |-> Recs(Head(evq))])
 GSpec == GInit /\ [][GNext]_<<vars, hist>>
 ====
